@@ -5,7 +5,8 @@ SeqsUpTo(S, n) == UNION {[1..k -> S] : k \in 0..n}
 
 LineSyms == {SA, SB, SUA, SSP, SDOT, SEA}
 Specials == { <<SFF>>, <<SA, SFF, SA>>, <<SCR>>, <<SA, SCR>>, <<SA, SCR, SB>>, <<SUS, SD0>>, <<SA, SDASH, SB>>,
-              <<SUEA>>, <<SUB, SB>>, <<SA, SB, SA, SB>>, <<SB, SA, SSP, SA, SB>>, <<SEA, SA>>, <<SA, SEA>> }
+              <<SUEA>>, <<SUB, SB>>, <<SA, SB, SA, SB>>, <<SB, SA, SA, SB>>, <<SSP, SB, SA, SB>>,
+              <<SA, SB>> \o [i \in 1..12 |-> SA] \o <<SB>>, <<SB>> \o [i \in 1..12 |-> SA] \o <<SB, SSP, SA>>, <<SA, SB>> \o [i \in 1..11 |-> SA] \o <<SB>>, <<SB, SA, SSP, SA, SB>>, <<SEA, SA>>, <<SA, SEA>> }
 MCLines == SetToSeq(SeqsUpTo(LineSyms, 3) \cup Specials)
 
 LitSyms == {SA, SB, SUA, SDOT, SEA, SUEA}
@@ -42,7 +43,7 @@ WPlus == URep(UWCls(FALSE), 1, Inf, TRUE)
 QuickOptSets == { Plain, [Plain EXCEPT !.ci = TRUE], [Plain EXCEPT !.crlf = TRUE], [Plain EXCEPT !.word = TRUE],
                   [Plain EXCEPT !.line = TRUE, !.inv = TRUE], [Plain EXCEPT !.smart = TRUE, !.word = TRUE] }
 MCSeeds == {[o |-> o, fam |-> f, pats |-> <<>>, fixed |-> FALSE] : o \in OptSets, f \in Fams}
-MCSeedsQuick == {[o |-> o, fam |-> f, pats |-> <<>>, fixed |-> FALSE] : o \in QuickOptSets, f \in (Fams \ {"cat"}) \cup {"catq"}}
+MCSeedsQuick == {[o |-> o, fam |-> f, pats |-> <<>>, fixed |-> FALSE] : o \in QuickOptSets, f \in (Fams \ {"cat"}) \cup {"catq", "innerq"}}
 Sc(ps, o, fx) == [pats |-> ps, o |-> o, fixed |-> fx, fam |-> "", sel |-> <<>>]
 MCPatternsOf(sd) ==
   LET o == sd.o IN
@@ -60,6 +61,9 @@ MCPatternsOf(sd) ==
                               y \in {UCat(ULit(SA), ULit(SB)), UGrp(UAlt(UCat(ULit(SA), ULit(SB)), ULit(SUA)), TRUE), UCat(ULit(SEA), ULit(SA)),
                                      URep(ULit(SA), 2, 2, TRUE), URep(ULit(SA), 12, 12, TRUE), URep(ULit(SA), 0, 2, TRUE), URep(ULit(SA), 1, 3, TRUE), UAlt(ULit(SB), UCat(ULit(SA), ULook("wb")))},
                               z \in {WPlus, URep(UDot, 0, Inf, TRUE), ULit(SB), ULook("wb"), URep(ULit(SB), 0, 1, TRUE)}}
+    [] sd.fam = "innerq" -> {[sd EXCEPT !.pats = <<UCat(x, UCat(y, ULit(SB)))>>] :
+                               x \in {UCat(WPlus, ULit(SB)), ULook("wb"), ULit(SB)},
+                               y \in {URep(ULit(SA), 12, 12, TRUE), URep(ULit(SA), 0, 2, TRUE), URep(ULit(SA), 2, 2, TRUE), URep(ULit(SA), 1, 3, TRUE)}}
     [] sd.fam = "two" -> {[sd EXCEPT !.pats = <<x, y>>] : x \in Leaves, y \in {ULit(SUA), ULit(SB), UCat(ULit(SA), ULit(SB))}}
 MCWordSyms == {1, 2, 3, 4, 5, 6, 10, 11}
 TinySeeds == {[o |-> Plain, fam |-> "fixed", pats |-> <<>>, fixed |-> FALSE]}
